@@ -166,6 +166,12 @@ def run (inp obs : List String) : Verdict :=
           (if !hintFails.isEmpty then ["hint-data-not-moved:" ++ ",".intercalate (sortStrings hintFails)] else []) ++
           (if !robLeft.isEmpty then ["robofab-key-left-in-lib:" ++ ",".intercalate (sortStrings robLeft)] else []) ++
           (if !othersLost.isEmpty then ["lib-key-lost"] else []) ++
+          (let existing := p.inp.feaFile.getD ""
+           let cands : List String :=
+             if fmt = 1 && i.hasLib then
+               (Spec.featureCandidates rf.classes rf.order rf.feats).map fun t => if t.isEmpty then existing else t
+             else [existing]
+           if cands.any (fun t => hexOfStr t.toList == implFeat) then [] else ["feature-text"]) ++
           (if implFmt ≠ "3" then ["format-version-not-3"] else []) ++
           (if obsField obs "val" ≠ some "ok" then ["converted-info-fails-validation"] else []) ++
           (if obsField obs "save" ≠ some "ok" then ["converted-font-cannot-be-saved"] else [])
